@@ -13,12 +13,42 @@ OutFile == IF "GEN_OUT" \in DOMAIN IOEnv THEN IOEnv.GEN_OUT ELSE "/dev/null"
 \* first operands: rich coefficient variants; second operands: two variants
 OrdersA == IF Thorough THEN 0..3 ELSE 0..2
 OrdersB == IF Thorough THEN 0..3 ELSE 0..2
-GridsA == IF Thorough THEN {E4, N5, F5, N6, Z4} ELSE {E4, N5, Z4}
+GridsA == IF Thorough THEN {E4, N5, F5, N6, Z4, L16} ELSE {E4, N5, Z4, L16}
 RichOn(g) == Len(g) <= (IF Thorough THEN 5 ELSE 4)
 
-FirstOperands == UNION {SplinesOn(g, OrdersA, RichOn(g)) : g \in GridsA}
+\* operands of order 4 and 5 (results up to order 10): a few windows, generic / jump coefficients and the unit
+\* vectors of the two highest powers
+HighOrders == {4, 5}
+HighGrids == {E4, N5}
+HighSplinesOn(g, o) ==
+  UNION {{SplOn(S, o, c) : c \in CoefVariants(SupNInt(S), o, FALSE)
+                              \cup (IF SupNInt(S) = 0 THEN {} ELSE {UnitC(SupNInt(S), o, r, k) : r \in {1, SupNInt(S)}, k \in {o, o + 1}})} :
+           S \in {SupWhole(g), Sup(g, 1, 3), Sup(g, 0, Len(g) - 1), Sup(g, 1, Len(g)), SupEmptyOn(g), Sup(g, 2, 3)}}
+HighOperands == UNION {HighSplinesOn(g, o) : g \in HighGrids, o \in HighOrders}
+
+FirstOperands == UNION {SplinesOn(g, OrdersA, RichOn(g)) : g \in GridsA} \cup HighOperands
 Partners(g) == SplinesOn(g, OrdersB, FALSE)
+HighPartners(g, o) == {p \in HighSplinesOn(g, o) : p.c = <<>> \/ p.c = Generic(Len(p.c), o, 0)}
 ForeignPartners(g) == UNION {SplinesOn(v, {0, 1}, FALSE) : v \in GridVariants(g)}
+
+\* size sweep (Domains!SweepGrid): whole-grid splines and one window not starting at 0, orders 0 and 2
+SweepVariants(n, o) == {JumpC(n, o), ZeroC(n, o), UnitC(n, o, n, o + 1), UnitC(n, o, (n + 1) \div 2, 1)}
+SweepOperands ==
+  UNION {UNION {{SplOn(SupWhole(SweepGrid(n)), o, c) : c \in SweepVariants(n, o)}
+                \cup (IF n >= 2 THEN {SplOn(Sup(SweepGrid(n), 1, n + 1), o, JumpC(n - 1, o))} ELSE {}) : o \in {0, 2}} : n \in SweepSizes}
+SweepPartners(a) ==
+  LET g == a.g
+      n == Len(g) - 1
+      o == a.o
+      h == (n + 1) \div 2
+  IN {a, SplOn(SupWhole(g), o, ZeroC(n, o)), SplOn(SupWhole(g), o, UnitC(n, o, n, o + 1)), SplOn(SupWhole(g), 1, Generic(n, 1, 0)),
+      SplOn(Sup(g, h, n + 1), o, Generic(n - h, o, 1)), SplOn(Sup(g, 0, h + 1), 1, Generic(h, 1, 0)),
+      SplOn(Sup(g, n, n + 1), o, <<>>), SplOn(SupEmptyOn(g), o, <<>>)}
+SweepCasesFor(a) ==
+  {[op |-> "SplEval", a |-> a, xs |-> SetToSeq(SweepProbes(a.g))]}
+  \cup {[op |-> "SplUn", a |-> a, k |-> k] : k \in {RTwo, RZero}}
+  \cup {[op |-> "SplBin", a |-> a, b |-> b, share |-> sh] : b \in SweepPartners(a), sh \in {0, 1}}
+  \cup {[op |-> "SplBin", a |-> b, b |-> a, share |-> 1] : b \in SweepPartners(a)}
 
 SeqSet(S) == SetToSeq(S)        \* any fixed order
 ProbeSeq(g) == SetToSeq(Probes(g))
@@ -47,7 +77,7 @@ NewCases(a) ==
       n == Len(g)
   IN IF a.s = 0 /\ a.e = n /\ a.c = Generic(n - 1, o, 0)
      THEN {[op |-> "SplNew", g |-> g, s |-> w[1], e |-> w[2], o |-> o, c |-> Generic(k, o, 1)] :
-             w \in ValidWindows(n), k \in 0..(n + 1)}
+             w \in WindowsOf(g), k \in 0..(n + 1)}
      ELSE {}
 
 CasesFor(a) ==
@@ -55,15 +85,20 @@ CasesFor(a) ==
   {[op |-> "SplEval", a |-> a, xs |-> ProbeSeq(g)]}
   \cup {[op |-> "SplUn", a |-> a, k |-> k] : k \in Scalars}
   \cup {[op |-> "SplBin", a |-> a, b |-> b, share |-> 1] : b \in Partners(g)}
+  \* a high-order operand on either side of a low-order one, and with its own order
+  \cup (IF a.o >= 4 THEN {[op |-> "SplBin", a |-> b, b |-> a, share |-> 1] : b \in Partners(g)}
+                          \cup {[op |-> "SplBin", a |-> a, b |-> b, share |-> sh] : b \in HighPartners(g, a.o), sh \in {0, 1}}
+        ELSE {})
   \cup {[op |-> "SplBin", a |-> a, b |-> b, share |-> 0] : b \in {p \in Partners(g) : p.o = a.o /\ (p.s = a.s \/ p.e = a.e)}}
   \cup (IF a.c = <<>> \/ a.c = Generic(Len(a.c), a.o, 0)
         THEN {[op |-> "SplBin", a |-> a, b |-> b, share |-> 0] : b \in ForeignPartners(g)} ELSE {})
   \cup (IF a.c = <<>> \/ a.c = Generic(Len(a.c), a.o, 0) \/ a.c = HolesC(Len(a.c), a.o) THEN LinCases(a) ELSE {})
   \cup NewCases(a)
 
-Init == \E a \in FirstOperands : st = [ph |-> 0, a |-> a]
+Init == \/ \E a \in FirstOperands : st = [ph |-> 0, a |-> a, sw |-> 0]
+        \/ \E a \in SweepOperands : st = [ph |-> 0, a |-> a, sw |-> 1]
 Next == /\ st.ph = 0
-        /\ \E c \in CasesFor(st.a) : st' = [ph |-> 1, c |-> c]
+        /\ \E c \in (IF st.sw = 1 THEN SweepCasesFor(st.a) ELSE CasesFor(st.a)) : st' = [ph |-> 1, c |-> c]
 Spec == Init /\ [][Next]_st
 Emit == (st'.ph = 1) => CSVWrite("%1$s", <<ToJson(st'.c)>>, OutFile)
 
